@@ -34,8 +34,8 @@ theorem StBlank.inv {st : St K F E} (h : StBlank st) : CInv plan st :=
   { cache_sub := by intro ck f hc; rw [h.cache] at hc; cases hc
     errors_sub := by intro ck f hc; rw [h.errors] at hc; cases hc
     all_eq := by intro k cs hc; rw [h.all] at hc; cases hc
-    closed_c := by intro k hk; exact absurd (h.all k) hk
-    closed_e := by intro k hk; exact absurd (h.all k) hk
+    closed_c := by intro k hk; exact absurd (h.cache (none, k)) hk
+    closed_e := by intro k hk; exact absurd (h.cache (none, k)) hk
     top_all := by intro k f hc; rw [h.cache] at hc; cases hc }
 
 /-- a lookup that does not resolve keeps not resolving after any other lookup -/
@@ -135,6 +135,16 @@ theorem MMap.lookup_spec (cfg : Cfg) (ms : List Meth) (e : Option Nat) (ok : Pla
     refine ⟨?_, MMap.lookup_meths cfg mm _, MMap.lookup_empty cfg mm _, ?_⟩
     · rw [MMap.lookup_cons_res, MMap.pure_cons]; exact hs.1
     · rw [MMap.lookup_cons_st]; exact hs.2
+
+/-- an interrupted table lookup preserves the invariant, wherever the interrupt falls -/
+theorem MMap.lookupCut_inv (cfg : Cfg) (ms : List Meth) (e : Option Nat) (ok : PlanOK (plan cfg ms))
+    (mm : MMap) (h : MInv cfg ms e mm) (ck : CKey Key) (n : Nat) : MInv cfg ms e (mm.lookupCut cfg ck n) := by
+  obtain ⟨hm, he, hi⟩ := h
+  subst hm; subst he
+  obtain ⟨c, k⟩ := ck
+  cases k with
+  | nil => exact ⟨rfl, rfl, hi⟩
+  | cons a k => exact ⟨rfl, rfl, Ovld.lookupCut_inv (plan cfg mm.meths) ok mm.st (c, a :: k) n hi⟩
 
 /-- `mm2` resolves at most where `mm1` does -/
 def MMap.Le (cfg : Cfg) (mm1 mm2 : MMap) : Prop :=
